@@ -453,5 +453,3 @@ EXPLANATION = ("C06 (files follow the JavaScript on-disk layout): decides agreem
                "words (R5), 40-byte tree records at index*40 with [u64le length][hash] (R6), entries carrying the current header bit and slot choice by the two bits (R7), partial-entry trimming loop able to exit (R8).")
 NOT_DECIDED = "the five-step golden-hash scenario (needs execution); values of version/flag bytes inside promoted constants; equality of the state an independent reader reconstructs."
 ASSUMPTIONS = ["compact_encoding primitives follow the compact-encoding spec", "reference tables frozen from the repository's own layout comments and the JS layout named in the property"]
-CLAIMED = False
-NA_REASON = "rules C06.R1-R8 are wired; R2, R5 and R8 fire on the unchanged tree and are being triaged (defect vs false alarm) before the property is claimed"
